@@ -332,6 +332,10 @@ class Gen:
                 if self.chance(1, 2):
                     out += ['HAVING', self.pick(['count(*)', 'sum(' + self.column(cols) + ')']),
                             self.pick(['>', '<', '='])] + self.nested(self.operand('having', cols, 1, 'operand', p_hole=7))
+            elif self.chance(1, 8):
+                # HAVING without GROUP BY (both grammars accept it)
+                out += ['HAVING', self.pick(['count(*)', 'sum(' + self.column(cols) + ')']),
+                        self.pick(['>', '<', '='])] + self.nested(self.operand('having', cols, 1, 'operand', p_hole=9))
             if self.chance(1, 3):
                 out += ['ORDER BY']
                 for i in range(self.draw(st.integers(1, 2))):
